@@ -72,10 +72,16 @@ let () =
       incr n;
       match split_bar line with
       | [hd; opss; addeds; errs; decs; finals] ->
+          (* "cum@ival0", "cum@rand101", "samp@ivalmax": other constructors at parameter values where they behave like the
+             collector named before the '@' (harness c14NewEvents) *)
+          let base_kind k = (match String.index_opt k '@' with Some i -> String.sub k 0 i | None -> k) in
           let (kind, nsamp) = (match split_ws hd with
-              | ["H"; "cum"; _; _; _] -> (KCumulative, Z0)
-              | ["H"; "samp"; k; _; _] -> (KSampling (z_of_string k), z_of_string k)
-              | ["H"; "pass"; _; _; _] -> (KPassthrough, Z0)
+              | ["H"; k0; k; _; _] ->
+                  (match base_kind k0 with
+                   | "cum" -> (KCumulative, Z0)
+                   | "samp" -> (KSampling (z_of_string k), z_of_string k)
+                   | "pass" -> (KPassthrough, Z0)
+                   | _ -> failwith "bad H kind")
               | _ -> failwith "bad H head") in
           (* "dyn!0,3": the wrapped collector refuses its 0th and 3rd Add call (harness c14Flaky). What the event
              collector hands over does not depend on it (the model's RWritten = "Collector.Add was called with d");
